@@ -151,3 +151,44 @@ func HarnessClientWriters() {
 	monitors("after-close-")
 	verif.Reach("client-writers-done")
 }
+
+type RevImpl struct{}
+
+func (r *RevImpl) Big(ctx context.Context, a int64) (int64, error) { return a + 1, nil }
+
+// HarnessCloseDuringWrite: the peer reverse-calls into a client; the client's
+// closer is invoked at every instant, in particular while the response is between
+// "writer acquired" and "flushed". The response is either delivered whole or not
+// at all; a close frame never cuts a message in two.
+func HarnessCloseDuringWrite() {
+	l := verif.ListenWS()
+	var frames [][]byte
+	go func() {
+		verif.Daemon()
+		pc := l.Accept()
+		pc.Send([]byte(`{"jsonrpc":"2.0","id":1,"method":"rev.Big","params":[41]}`))
+		for {
+			b, ok := pc.Recv()
+			if !ok {
+				return
+			}
+			frames = append(frames, b)
+		}
+	}()
+	var c C
+	closer, err := jsonrpc.NewMergeClient(context.Background(), l.URL(), "NS", []interface{}{&c}, nil,
+		jsonrpc.WithClientHandler("rev", &RevImpl{}))
+	verif.Assert(err == nil, "client-created")
+	go func() {
+		verif.AtStep("close_at", verif.Bound("steps", 30))
+		closer()
+	}()
+	verif.Quiesce()
+	for _, b := range frames {
+		var f anyFrame
+		verif.Assert(json.Unmarshal(b, &f) == nil && f.Jsonrpc == "2.0", "every-message-is-one-complete-json-rpc-frame")
+	}
+	verif.Assert(verif.TornMessages() == 0, "close-frame-never-tears-a-message")
+	monitors("")
+	verif.Reach("close-during-write-done")
+}
